@@ -5,10 +5,11 @@ Dispatch / argument-kind exhaustiveness and slot alignment; closing predicates;
 restoration of promoted delimiters for children; absent optional arguments
 consume nothing; default-table facts the property names."""
 import ast
+import re
 from ..core import (AnalysisError, short, unparse, iter_own, call_name, call_recv, kwarg,
                     is_self_attr, atomic_facts, split_conj, parents, enclosing_stmt, enclosing_func,
                     const_value)
-from .. import tables
+from .. import tables, symex, affine
 
 COLL = 'pylatexenc.latexnodes._nodescollector'
 TR = 'pylatexenc.latexnodes._tokenreader'
@@ -110,6 +111,8 @@ def run(ctx):
     pst = ex.methods('LatexExpressionParser').get('_parse_single_token')
     if pot is None or pst is None:
         raise AnalysisError('anchor vanished: process_one_token/_parse_single_token')
+    pot_raw = pot
+    pot = symex.inline_stmt_helpers(pot, cm)      # checks extracted into a private helper are followed
     kinds, dyn = emitted_token_kinds(repo)
     ctx.analysed['emitted_token_kinds'] = sorted(kinds)
     for fn, mod, label in ((pot, co, 'process_one_token'), (pst, ex, '_parse_single_token')):
@@ -279,6 +282,22 @@ def run(ctx):
                    construct='get_arg_parser_instance: %s' % short(c, 70))
     ctx.assume('equality of the produced tree with the grammar derivation of the document is not '
                'decided; only dispatch, slot and delimiter discipline are')
+    # ---- R02n (C09 R09a): parser objects are shared between parses (cached argument parsers): a
+    # parser that changes its own configuration while parsing reads the next call differently
+    ctx.rule('R02n', 'argument and node parsers keep their configuration while parsing (the standard argument '
+                     'parsers are cached and shared): no store or in-place change on a parser object or on an '
+                     'alias of one of its attributes (C09 R09a)', 20)
+    from . import c09 as _c09
+    from .. import core as _core
+    _c09.run(_core.Proxy(ctx, 'R02n', ('R09a',)))
+
+    # ---- R02o
+    ctx.rule('R02o', 'a token position derived from a regular-expression match is the end of the whole match '
+                     '(m.end()) or provably equal to it from the pattern', 1)
+    if match_extent(ctx, 'R02o', repo, TR) == 0:
+        ctx.unknown('R02o', repo.mod(TR), None, 'no position derived from a regex match found',
+                    construct='match extent')
+
     return 'other', (
         'Decides the dispatch skeleton of the parser: every token kind the reader emits has a '
         'handler, every standard argument letter builds the parser of its kind and optionality, one '
@@ -344,7 +363,7 @@ def _regex_word_boundary_verdict(pattern):
 
 
 def _begin_end_word_boundary(ctx, repo):
-    from .. import symex, affine
+    pass
     tm = repo.mod(TR)
     ip = tm.methods('LatexTokenReader').get('impl_peek_token')
     if ip is None:
@@ -397,10 +416,17 @@ def _begin_end_word_boundary(ctx, repo):
                 continue
         # helper form: beginend = <module-level helper>(s, pos) returning the word found or None
         bd = symex.resolve(be, cs.env) if be is not None else None
-        if isinstance(be, ast.Name) and isinstance(bd, ast.Call) and isinstance(bd.func, ast.Name) and \
-                bd.func.id in tm.functions:
-            h = tm.functions[bd.func.id]
+        h = None
+        if isinstance(be, ast.Name) and isinstance(bd, ast.Call):
+            if isinstance(bd.func, ast.Name) and bd.func.id in tm.functions:
+                h = tm.functions[bd.func.id]
+            elif isinstance(bd.func, ast.Attribute) and isinstance(bd.func.value, ast.Name) and \
+                    bd.func.value.id == 'self':
+                h = tm.methods('LatexTokenReader').get(bd.func.attr)
+        if h is not None:
             hp = [a.arg for a in h.args.args]
+            if hp and hp[0] == 'self':
+                hp = hp[1:]
             ren = dict(zip(hp, bd.args))
             words_ok = True
             words = set()
@@ -411,8 +437,10 @@ def _begin_end_word_boundary(ctx, repo):
                     words_ok = False
                     continue
                 words.add(hc.sub.value)
-                hf = symex.facts_of([(symex.subst(t_, ren), p_) for t_, p_ in hc.conds])
-                if not any(p_ and t_.startswith("s.startswith('%s'" % hc.sub.value) for t_, p_ in hf):
+                hat = [(a_, ap_) for t_, p_ in hc.conds for a_, ap_ in symex._atoms(symex.subst(t_, ren), p_)]
+                if not any(ap_ and isinstance(a_, ast.Call) and call_name(a_) == 'startswith' and a_.args
+                           and isinstance(a_.args[0], ast.Constant) and a_.args[0].value == hc.sub.value
+                           for a_, ap_ in hat):
                     words_ok = False
             boundary = False
             for a, ap in atoms:
@@ -512,7 +540,7 @@ def first_tokens_complete(ctx, repo, rule):
     """parse_initial(): when the opening delimiter is not found, the exception lists every token
     that was read (the caller resets the reader to first_tokens[0], so a token read but not listed
     -- e.g. a skipped comment -- is lost when the optional argument turns out to be absent)"""
-    from .. import symex
+    pass
     dm = repo.mod(DELIM)
     n = 0
     for q, f in sorted(dm.functions.items()):
@@ -613,7 +641,7 @@ def _rest(ctx, repo):
     if gm is None:
         raise AnalysisError('anchor vanished: LatexDelimitedGroupParserInfo.make_child_parsing_state')
     tokp = gm.args.args[-1].arg
-    from .. import symex
+    pass
     helpers = dict((qq.rsplit('.', 1)[-1], ff) for qq, ff in dm.functions.items())
     for cs in symex.return_cases(gm):
         r = cs.node
@@ -731,3 +759,93 @@ def _optionality(repo, call):
             return bool(rets[0].value.value)
         return False
     return None
+
+
+
+def _group_context_width(pat, group):
+    """(prefix+suffix width, fixed?) of the pattern outside the named group, via re._parser"""
+    import re._parser as sp
+    try:
+        parsed = sp.parse(pat)
+    except Exception:
+        return None, False
+    items = list(parsed)
+    idx = None
+    gi = parsed.state.groupdict.get(group) if group is not None else None
+    for k, (op, av) in enumerate(items):
+        if str(op) == 'SUBPATTERN' and (av[0] == gi):
+            idx = k
+    if idx is None:
+        return None, False
+    total, fixed = 0, True
+    for k, (op, av) in enumerate(items):
+        if k == idx:
+            continue
+        sub = sp.SubPattern(parsed.state, [(op, av)])
+        lo, hi = sub.getwidth()
+        if lo != hi:
+            fixed = False
+        total += lo
+    return total, fixed
+
+
+def match_extent(ctx, rule, repo, modname):
+    """R02o: a position computed from a regular-expression match is the end of the whole match
+    (m.end()), or is provably equal to it from the pattern (captured group + fixed-width context)"""
+    tm = repo.mod(modname)
+    n = 0
+    for q, f in sorted(tm.functions.items()):
+        ms = [st for st in iter_own(f) if isinstance(st, ast.Assign) and len(st.targets) == 1
+              and isinstance(st.targets[0], ast.Name) and isinstance(st.value, ast.Call)
+              and call_name(st.value) in ('match', 'search') and call_recv(st.value) is not None
+              and unparse(call_recv(st.value)).split('.')[-1].startswith('rx')]
+        for st in ms:
+            mname = st.targets[0].id
+            rxname = unparse(call_recv(st.value)).split('.')[-1]
+            pat = None
+            for a_ in ast.walk(tm.tree):
+                if isinstance(a_, ast.Assign) and any(unparse(t).split('.')[-1] == rxname for t in a_.targets) \
+                        and isinstance(a_.value, ast.Call) and call_name(a_.value) == 'compile' \
+                        and a_.value.args and isinstance(a_.value.args[0], ast.Constant):
+                    pat = a_.value.args[0].value
+            try:
+                cases = symex.Walker(want_returns=True, pure=('end', 'start', 'group', 'span')).run(f)
+            except symex.TooManyPaths:
+                ctx.unknown(rule, tm, f, 'too many paths', construct=q + ': match extent')
+                continue
+            for cs in cases:
+                if cs.kind != 'return':
+                    continue
+                elts = cs.sub.elts if isinstance(cs.sub, ast.Tuple) else [cs.sub]
+                for e in elts:
+                    try:
+                        c0, terms = affine.norm(e)
+                    except affine.NotAffine:
+                        continue
+                    mterms = dict((k, v) for k, v in terms.items() if (mname + '.') in k)
+                    if not mterms or not all(k.startswith('len(') or k.endswith('.end()') or k.endswith('.start()')
+                                             for k in mterms):
+                        continue            # not a position (the matched text itself)
+                    n += 1
+                    cons = '%s: position after the match of %s' % (q, rxname)
+                    if mterms == {mname + '.end()': 1}:
+                        ctx.holds(rule, tm, cs.node, 'position = base + %s.end(): the whole match' % mname,
+                                  construct=cons)
+                        continue
+                    ok = False
+                    why = 'it is computed as %s' % short(e, 90)
+                    if len(mterms) == 1 and pat is not None:
+                        k_, v_ = list(mterms.items())[0]
+                        m_ = re.match(r"len\(%s\.group\((?:'(\w+)'|\"(\w+)\")\)\)$" % re.escape(mname), k_)
+                        if m_ and v_ == 1:
+                            width, fixed = _group_context_width(pat, m_.group(1) or m_.group(2))
+                            ok = fixed and width == c0
+                            why += '; the pattern %r has %s around the group (%s character(s) at least), the ' \
+                                   'expression adds %d' % (pat, 'a fixed-width context' if fixed else
+                                                           'variable-width parts', width, c0)
+                    ctx.decide(rule, ok, tm, cs.node,
+                               'length of the captured group plus the fixed width of the rest of the pattern',
+                               '%s does not report the end of the regular-expression match: %s -- the token ends '
+                               'before the text that was recognised (whitespace allowed by the pattern), and the '
+                               'rest is read as stray characters' % (q, why), construct=cons)
+    return n
